@@ -14,6 +14,21 @@ CLAIMED = {
     note="Trusted: Coq kernel + vm_compute; go2coq (guard-shape recogniser over go/ast: which statement shapes count as a nil guard) and the statement-level comparison of should/newEvent/WithLevel/write/Panic/Fatal with the transcribed shapes (a harmless rewrite of those six functions is reported as broken, no-failing-input-found); Go harness: exhaustive 256x256x256 gate table and reflection-enumerated nil-event calls on the real code; Fatal observed in a re-executed child. strings.EqualFold is modelled for ASCII only.",
     technique="Coq proof + go2coq-regenerated method/shape tables as proof obligations + model-vs-implementation correspondence",
     design="5 C04"),
+ "C01": dict(
+    text="Theorem C01_event_line (Coq): for ALL settings, logger derivation chains, event programs of any nesting (Dict/Array/Object/EmbedObject/Fields/Func/errors/hooks), levels and messages, the line the model writes is body++newline with body one RFC 8259 object (inductive relation Json), valid RFC 3629 UTF-8 and no byte below 0x20; proved by refinement of a declarative member specification (run_chain_sound) over a byte-exact executable model of internal/json + event.go/context.go/array.go/fields.go/log.go. The string escaper theorem holds for every byte string with no premise. Tie: the model is evaluated (vm_compute) on ~3000 generated programs per run and must reproduce the real encoder's exact bytes; an independent Go RFC 8259/UTF-8 validator monitors every real line.",
+    note="Premises of the theorem = the property's exclusions and oracle hypotheses (chain_ok/hooks_ok/ops_ok): RawJSON and marshal-function results are valid JSON, time layouts contain no quote/backslash/control byte, strconv float texts are JSON numbers (validated by the harness on every generated float), base64 text is base64. Trusted: Coq kernel + vm_compute, the JSON/UTF-8 relations in coq/Base, the hand-written model (checked byte-for-byte against the implementation each run), Go harness and generator. Discard is modelled only as the last op of a fragment; Caller fields are covered by C19.",
+    technique="Coq proof (refinement to a declarative spec, induction on nesting fuel) + exact-byte model-vs-implementation correspondence",
+    design="5 C01"),
+ "C02": dict(
+    text="Theorem C02_roundtrip (Coq): the emitted text denotes exactly the member list of the declarative specification event_spec (key read as text, value prim_jv per type), and denotes no other value (json_functional; parser sound+complete); per-type theorems: integers exact for every mathematical integer (parse_Z(print_Z z)=z, num_value), text = Go's rune reading with U+FFFD per ill-formed byte, floats NaN/Inf strings by bit pattern else the strconv text with value-preserving exponent clean-up, times/durations per format with truncating division, Hex/RawCBOR/nil forms, nil errors; slice element = scalar encoding; C02_entry_points_agree: Event, Array, Fields, Context append the same text for the same primitive. Tie: same exact-byte correspondence as C01 plus go2coq method tables.",
+    note="Same premises/trusted base as C01. strconv.AppendFloat, time formatting, net/reflect String() and encoding/json are oracles: the harness computes their answers independently of zerolog and ships them with each case; that the 'f'/'e' float texts denote the float exactly is strconv's correctness, assumed. FloatingPointPrecision is a parameter of the model.",
+    technique="Coq proof (refinement to declarative value spec; decimal round-trip lemmas) + exact-byte correspondence",
+    design="5 C02"),
+ "C03": dict(
+    text="Theorem C03_layout (Coq): the member list is level ++ context(path) ++ event fields ++ hook fields ++ message, each exactly once and in order, for all derivation chains of any depth (With/UpdateContext/hooks), all programs; C03_hooks_of_path: the hooks run are those registered along the path, ancestors first, registration order (UpdateContext registers none), each folded over exactly once; C03_written_iff_not_discarded. Tie: exact-byte + hook/marshaler mark-trace correspondence on generated chains; Go monitor checks each path hook ran exactly once in order.",
+    note="Same premises/trusted base as C01. Level()/Output()/Sample() are executed on the real code as byte-neutral derivations (the model ignores them, so any effect on bytes is a mismatch). A hook that discards does not stop later hooks (as in the code); they are still required to run once.",
+    technique="Coq proof (logger invariant by induction over the derivation chain) + byte and mark-trace correspondence",
+    design="5 C03"),
 }
 
 NOT_YET = {}
